@@ -104,7 +104,7 @@ fn tlv_mutants(seed: &[u8], rng: &mut Rng, max: usize) -> Vec<Vec<u8>> {
 	};
 	let n = count_nodes(&tree);
 	let mut out = Vec::new();
-	let kinds = 12;
+	let kinds = 14;
 	let total = n * kinds;
 	let step = (total / max.max(1)).max(1);
 	let mut idx = rng.below(step as u64) as usize;
@@ -163,9 +163,24 @@ fn tlv_mutants(seed: &[u8], rng: &mut Rng, max: usize) -> Vec<Vec<u8>> {
 				sibs[i].children = None;
 				sibs[i].content = vec![0x80, 0x01]; // non-minimal sub-identifier / leading padding
 			},
-			_ => {
+			11 => {
 				sibs[i].children = None;
 				sibs[i].content = vec![0xff; 9]; // a sub-identifier beyond 64 bits; a negative 9-octet INTEGER
+			},
+			12 => {
+				// only the first content octet stays (a BIT STRING of zero bits: 03 01 00; a one-octet INTEGER / string)
+				if sibs[i].children.is_none() && !sibs[i].content.is_empty() {
+					sibs[i].content.truncate(1);
+				} else if let Some(ch) = sibs[i].children.as_mut() {
+					ch.truncate(1);
+				}
+			},
+			_ => {
+				if sibs[i].children.is_none() && sibs[i].content.len() >= 2 {
+					sibs[i].content.truncate(2);
+				} else if let Some(ch) = sibs[i].children.as_mut() {
+					ch.truncate(2);
+				}
 			},
 		});
 		out.push(encode_nodes(&t));
